@@ -1,7 +1,7 @@
 (* C17 property theorems.  Statements + exact + Print Assumptions only. *)
 From ZV.Common Require Import Base.
 From ZV.C17 Require Import Spec Model ProofsSpec ProofsPage ProofsLinks ProofsLru ProofsRefine ProofsShard ProofsStamp ProofsStale ProofsTop.
-From ZV.C17 Require Import ModelInval ProofsInval ProofsFresh.
+From ZV.C17 Require Import ModelInval ProofsInval ProofsFresh ModelBlob ProofsBlob.
 Open Scope N_scope.
 
 (* ---- S: the recency-list LRU map never exceeds its capacity, for every history ---- *)
@@ -321,3 +321,76 @@ Proof. exact load_page_is_page_of. Qed.
 Check page_load_is_file_page : forall ps f p,
   load_page ps (Some f) p = page_of ps f p /\ (0 < ps -> load_page ps None p = []).
 Print Assumptions page_load_is_file_page.
+
+(* ====================================================================================================== *)
+(* extension: CachedBlobStore in front of any blob store                                                  *)
+(* ====================================================================================================== *)
+
+(* ---- a read of a virtual file id (register_file(-1): no file entry) supplies no byte, for every offset and
+        length (any number of pages), from every cache state in which the id's pages are empty; and every
+        operation on the cache keeps them empty.  (A page that loaded as PAGE_SIZE zeros would be served as data.) ---- *)
+Theorem virtual_read_supplies_nothing : forall c v off len,
+  virt_ok c v -> snd (pc_read c v off len) = [] /\ virt_ok (fst (pc_read c v off len)) v.
+Proof. exact (fun c v off len H => conj (pc_read_virt c v off len H) (pc_read_keeps_virt c v v off len H)). Qed.
+Check virtual_read_supplies_nothing : forall c v off len,
+  virt_ok c v -> snd (pc_read c v off len) = [] /\ virt_ok (fst (pc_read c v off len)) v.
+Print Assumptions virtual_read_supplies_nothing.
+Theorem virtual_pages_stay_empty : forall c v o, virt_ok c v -> virt_ok (fst (x_step c o)) v.
+Proof. exact x_step_keeps_virt. Qed.
+Check virtual_pages_stay_empty : forall c v o, virt_ok c v -> virt_ok (fst (x_step c o)) v.
+Print Assumptions virtual_pages_stay_empty.
+
+(* ---- for every wrapped store (any state type, any put/get/remove/size/contains/len), every history of
+        put / get / remove / size / contains / len / flush / prefetch_range / disable / enable / set_write_strategy,
+        interleaved with arbitrary direct use of the (shared) page cache: the CachedBlobStore returns what the
+        wrapped store returns on the same calls, and leaves the wrapped store in the same state.
+        Blobs of any size (several pages), any write strategy, cache enabled or not. ---- *)
+Theorem cached_store_is_inner_store :
+  forall (St : Type) (i_put : St -> list N -> St * option N) (i_get : St -> N -> option (list N))
+         (i_remove : St -> N -> St * bool) (i_size : St -> N -> option N) (i_contains : St -> N -> bool)
+         (i_len : St -> N) (ops : list bop) (s : cbs St),
+  virt_ok (b_cache St s) (b_fid St s) ->
+  store_view ops (snd (cb_run St i_put i_get i_remove i_size i_contains i_len s ops)) =
+    snd (i_run St i_put i_get i_remove i_size i_contains i_len (b_inner St s) ops) /\
+  b_inner St (fst (cb_run St i_put i_get i_remove i_size i_contains i_len s ops)) =
+    fst (i_run St i_put i_get i_remove i_size i_contains i_len (b_inner St s) ops).
+Proof. exact cached_store_proof. Qed.
+Check cached_store_is_inner_store :
+  forall (St : Type) (i_put : St -> list N -> St * option N) (i_get : St -> N -> option (list N))
+         (i_remove : St -> N -> St * bool) (i_size : St -> N -> option N) (i_contains : St -> N -> bool)
+         (i_len : St -> N) (ops : list bop) (s : cbs St),
+  virt_ok (b_cache St s) (b_fid St s) ->
+  store_view ops (snd (cb_run St i_put i_get i_remove i_size i_contains i_len s ops)) =
+    snd (i_run St i_put i_get i_remove i_size i_contains i_len (b_inner St s) ops) /\
+  b_inner St (fst (cb_run St i_put i_get i_remove i_size i_contains i_len s ops)) =
+    fst (i_run St i_put i_get i_remove i_size i_contains i_len (b_inner St s) ops).
+Print Assumptions cached_store_is_inner_store.
+(* page size 4, MemoryBlobStore, a 10-byte blob (3 pages) and a real file sharing the cache *)
+Example cached_store_nontrivial :
+  let fs := fun g => if g =? 1 then Some [1; 2; 3; 4; 5; 6; 7; 8; 9; 10; 11; 12] else None in
+  let s := mkB mem mem_new (pc_new 4 8 fs) 2 true 0 [] 0 in
+  let ops := [BPut [9; 8; 7; 6; 5; 4; 3; 2; 1; 0]; BPut [5]; BCache (XRead 1 2 5); BPrefetch 0 12; BGet 1;
+              BRemove 1; BGet 1; BGet 2; BLen] in
+  virt_ok (b_cache mem s) (b_fid mem s) /\
+  snd (cb_run mem mem_put mem_get mem_remove mem_size mem_contains mem_len s ops) =
+    [RId (Some 1); RId (Some 2); RCache (XBytes [3; 4; 5; 6; 7]); RNone; RBytes (Some [9; 8; 7; 6; 5; 4; 3; 2; 1; 0]);
+     ROk true; RBytes None; RBytes (Some [5]); RCount 1].
+Proof. split; [apply virt_ok_new; reflexivity|vm_compute; reflexivity]. Qed.
+
+(* ---- the store's own traffic on a shared cache (reads, prefetches and invalidations of its virtual id) does not
+        disturb anybody else: every clean direct read of a real file through the shared cache returns the file's
+        current bytes, whatever the store does in between ---- *)
+Theorem shared_cache_reads_stay_fresh :
+  forall (St : Type) (i_put : St -> list N -> St * option N) (i_get : St -> N -> option (list N))
+         (i_remove : St -> N -> St * bool) (i_size : St -> N -> option N) (i_contains : St -> N -> bool)
+         (i_len : St -> N) (ops : list bop) (s : cbs St) (D : list pkey),
+  0 < psize (b_cache St s) -> stale_ok (b_cache St s) D -> bops_ok (files (b_cache St s)) ops ->
+  cb_fresh St i_put i_get i_remove i_size i_contains i_len s D ops.
+Proof. exact cb_fresh_proof. Qed.
+Check shared_cache_reads_stay_fresh :
+  forall (St : Type) (i_put : St -> list N -> St * option N) (i_get : St -> N -> option (list N))
+         (i_remove : St -> N -> St * bool) (i_size : St -> N -> option N) (i_contains : St -> N -> bool)
+         (i_len : St -> N) (ops : list bop) (s : cbs St) (D : list pkey),
+  0 < psize (b_cache St s) -> stale_ok (b_cache St s) D -> bops_ok (files (b_cache St s)) ops ->
+  cb_fresh St i_put i_get i_remove i_size i_contains i_len s D ops.
+Print Assumptions shared_cache_reads_stay_fresh.
